@@ -15,7 +15,7 @@ RULE = ('cases = LinearLayerTT(size_in,size_out,rank,dtype,initializer) with 1..
         'distinct = (sizes, rank, batch shape, dtype, initializer); non-trivial = non-zero reference output.')
 ASSUMPTIONS = ['cores are re-set to int-valued tensors in half of the cases so that forward can be compared bit-exactly in those']
 REQUIRED_REACH = ['nn:LinearLayerTT.__init__', 'nn:LinearLayerTT.forward', '_extras:randn']
-REQUIRED_COUNTS = {'batch>=4096-samples': 4, 'input>65536-entries-longest-batch-axis-not-first': 3, 'history:eval-update-forward': 5, 'history:no_grad-forward-first': 5, 'batchdims:0': 1, 'batchdims:1': 1, 'batchdims:2': 1, 'batchdims:3': 1, 'init:He': 1, 'init:Glo': 1, 'grad_checks': 10, 'invalid-initializer': 1}
+REQUIRED_COUNTS = {'history:core-parameters-replaced': 5, 'batch>=4096-samples': 4, 'input>65536-entries-longest-batch-axis-not-first': 3, 'history:eval-update-forward': 5, 'history:no_grad-forward-first': 5, 'batchdims:0': 1, 'batchdims:1': 1, 'batchdims:2': 1, 'batchdims:3': 1, 'init:He': 1, 'init:Glo': 1, 'grad_checks': 10, 'invalid-initializer': 1}
 LINE_FUNCS = ['LinearLayerTT.forward', 'LinearLayerTT.__init__']
 
 
@@ -158,7 +158,17 @@ def run_layer(case, ctx, g):
             ctx.viol('layer/eval/clause=raises:%s' % y_eval.type, '%s eval-mode forward raised %r' % (what, y_eval))
         else:
             compare(ctx, 'layer/eval', y_eval.detach(), ref.detach(), exact, dn.ueps(dt), srep, what + ' [eval mode]')
-        with torch.no_grad():
+        if case['seed'] % 4 == 2:
+            # the parameter OBJECTS are replaced (layer.cores[k] = nn.Parameter(...): how a layer is initialised from a given TT operator), not updated in place
+            ctx.count('history:core-parameters-replaced')
+            for k_ in range(len(cores)):
+                layer.cores[k_] = torch.nn.Parameter(gens.values(list(cores[k_].shape), dt, 'int', g, -2, 2) if case['intvals'] else (cores[k_].detach() * 0.5 + 0.25).clone())
+            cores = list(layer.cores)
+            params = dict(layer.named_parameters())
+            with torch.no_grad():
+                layer.bias.copy_(gens.values(sout, dt, 'int' if case['intvals'] else 'gauss', g))
+        else:
+          with torch.no_grad():
             for c in cores:
                 c.copy_(gens.values(list(c.shape), dt, 'int', g, -2, 2) if case['intvals'] else c * 0.5 + 0.25)
             layer.bias.copy_(gens.values(sout, dt, 'int' if case['intvals'] else 'gauss', g))
